@@ -30,7 +30,8 @@ def triple_record(av, bv, cv, x, dts):
         d['aug'] = f32_fields(jaccarddist(AX, BX))
         # the same two distances through the one-against-many path, references stored concatenated in THEIR integer type
         if np.dtype(dts[1]).itemsize == np.dtype(dts[2]).itemsize:
-            refs = SignatureArray([B.view(f'u{B.dtype.itemsize}'), C.view(f'u{C.dtype.itemsize}')], KmerSpec(16, 'ATG'), dtype=np.dtype(f'u{B.dtype.itemsize}'))
+            # the reference collection is built from the two arrays AS THEY ARE (possibly one unsigned, one signed)
+            refs = SignatureArray([B, C], KmerSpec(16, 'ATG'))
             from gambit._cython.threads import omp_set_num_threads
             omp_set_num_threads(1)
             row = jaccarddist_array(A, refs)
